@@ -46,7 +46,7 @@ def compile_obj(src, san):
     obj = os.path.join(BUILD, os.path.basename(src).rsplit(".", 1)[0] + "." + san + ".o")
     srcp = os.path.join(VERIF, src)
     if newer(obj, [srcp] + harness_deps()):
-        comp = CXX if src.endswith(".cpp") else ["clang", "-O1", "-g", "-fno-omit-frame-pointer", "-I" + VERIF]
+        comp = CXX if src.endswith(".cpp") else ["clang", "-O1", "-g", "-fno-omit-frame-pointer", "-I" + VERIF, "-I" + os.path.join(VERIF, "adapters")]
         tmp = obj + ".%d.tmp" % os.getpid()
         B.run(comp + SANMAP[san] + ["-c", srcp, "-o", tmp])
         os.replace(tmp, obj)
